@@ -30,7 +30,8 @@ IsarFaults == {"none", "malformed_xml", "type_cycle", "self_reference", "undefin
                "random_text", "constant_cycle", "token_fuzz", "self_typedef_member", "typedef_cycle_member",
                "union_self_arm", "negative_shift_constant", "huge_dimension", "dangling_expression", "typedef_without_type",
                "enum_without_members", "non_numeric_enum_value", "non_numeric_discriminator", "non_utf8",
-               "division_by_zero", "size_names_type", "absurd_shift", "empty_member_name"}
+               "division_by_zero", "size_names_type", "absurd_shift", "empty_member_name",
+               "malformed_operator_call"}
 PatchFaults == {"none", "one_word_line", "unknown_action", "wrong_param_count", "member_not_found", "non_integer_index",
                 "absent_message", "empty_patch", "non_utf8_patch", "bad_size_expression", "valid_rules"}
 OptionFaults == {"none", "no_input", "no_output", "missing_input_file", "isar_and_sack", "missing_include_dir",
